@@ -282,6 +282,23 @@ Proof.
   - inversion Hm; subst fr. destruct Hin as [<-|[]]. exists (b0 :: bt). simpl. split; [reflexivity | exact E].
 Qed.
 
+(** a member for which the normalised union selection has no fragment: its selection set normalises to nothing *)
+Lemma flatten_union_member : forall f g u l s' ms t,
+  flatten (S f) false g (RUnion u) (Some l) = Some (Some s') -> union_members g u = Some ms -> In t ms ->
+  (forall x, In x s' -> n_alias x <> t) -> flatten f false g (RObj t) (Some l) = Some (Some []).
+Proof.
+  intros f g u l s' ms t H Hu Hin Hne. unfold flatten in H. cbn [flatten_gen] in H. change (flatten_gen true) with flatten in H.
+  rewrite Hu in H.
+  match type of H with match mapo ?F ms with _ => _ end = _ => destruct (mapo F ms) as [frs|] eqn:Em; [|discriminate] end.
+  inversion H; subst s'. apply mapo_Forall2 in Em. clear H Hu.
+  induction Em as [|m fr ms frs Hm _ IH]; [contradiction|].
+  assert (Hne' : forall x, In x (List.concat frs) -> n_alias x <> t).
+  { intros x Hx. apply Hne. simpl. apply in_or_app. right; exact Hx. }
+  destruct Hin as [->|Hin]; [|apply IH; auto].
+  destruct (flatten f false g (RObj t) (Some l)) as [[[|b0 bt]|]|] eqn:E; try discriminate; [reflexivity|].
+  inversion Hm; subst fr. exfalso. apply (Hne (NFrag t [] (b0 :: bt))); [simpl; left; reflexivity | reflexivity].
+Qed.
+
 Lemma flatten_some_sub : forall f g t l, flatten f false g t (Some l) <> Some None.
 Proof.
   intros [|f] g t l H; [discriminate|]. unfold flatten in H. destruct t as [|o|u]; cbn [flatten_gen] in H; [discriminate| |].
@@ -570,8 +587,34 @@ Section Norm.
       destruct rt as [|o|u]; simpl in Hv; try contradiction; [exfalso; apply (flatten_scalar_some _ _ _ Hfl)|].
       destruct Hv as [ms [Hu Hin]]. destruct f as [|f']; [discriminate|].
       destruct (flatten_union_inv f' g u subs s' Hfl) as [ms' [Hu' Hx]]. rewrite Hu in Hu'. inversion Hu'; subst ms'. clear Hu'.
-      destruct Hsub as [Hnd [Hok' [ms2 [Hu2 Hcov]]]]. rewrite Hu in Hu2. inversion Hu2; subst ms2. clear Hu2.
-      eapply forallb_forall in Hcov; [|exact Hin]. apply existsb_exists in Hcov as [x [Hxin Hxt]]. apply String.eqb_eq in Hxt.
+      destruct Hsub as [Hnd [Hok' [ms2 [Hu2 Hsne]]]]. rewrite Hu in Hu2. inversion Hu2; subst ms2. clear Hu2.
+      destruct (existsb (fun x => String.eqb (n_alias x) t) s') eqn:Hcov.
+      2:{ (* no fragment for member t: the union-level __typename alone, on both sides *)
+        assert (Hne : forall n, In n s' -> n_alias n <> t).
+        { intros n Hn He. assert (existsb (fun x => String.eqb (n_alias x) t) s' = true); [|congruence].
+          apply existsb_exists. exists n. split; [exact Hn | apply String.eqb_eq; exact He]. }
+        pose proof (flatten_union_member f' g u subs s' ms t Hfl Hu Hin Hne) as Hft.
+        destruct (HN' f' eq_refl t i subs [] Hft Hq eq_refl) as [r [Hr Hj]].
+        pose proof (all_frags_ok _ _ _ Hok') as Hfr. unfold all_frags in Hfr.
+        assert (Hhf : has_frag s' = true).
+        { destruct s' as [|x0 rest]; [congruence|]. rewrite Forall_forall in Hfr.
+          unfold has_frag. apply existsb_exists. exists x0. split; [left; reflexivity | rewrite (Hfr x0 (or_introl eq_refl)); reflexivity]. }
+        unfold asubs. rewrite Hhf. cbn [render_gen rrender].
+        rewrite (pick_gen_uncovered w g (map annot s') t i).
+        2:{ apply Forall_forall. intros n Hn. apply in_map_iff in Hn as [m [<- Hm]]. rewrite annot_is_field.
+            rewrite Forall_forall in Hfr. apply Hfr; exact Hm. }
+        2:{ intros n Hn. apply in_map_iff in Hn as [m [<- Hm]]. rewrite annot_alias. apply Hne; exact Hm. }
+        rewrite Hr. rewrite eval_obj_eq in Hj. cbn [map] in Hj. unfold evs in Hj. cbn [flat_map] in Hj. rewrite app_nil_r in Hj.
+        inversion Hj as [| | | | |la lb Hlk]; subst. clear Hj.
+        assert (Hk0 : lookup "__typename" (key_kv K t i) = None) by (unfold key_kv; destruct (K t); reflexivity).
+        assert (Hn2 : lookup "__typename" lb = None).
+        { pose proof (Hlk "__typename") as A. rewrite Hk0 in A. inversion A. reflexivity. }
+        eexists. split; [reflexivity|]. constructor. cbn [andb]. unfold has_key. rewrite Hn2. cbn [negb].
+        intros k. destruct (String.eqb k "__typename") eqn:Ek.
+        - apply String.eqb_eq in Ek. subst k. rewrite !lookup_app, Hk0, Hn2. cbn [lookup]. rewrite String.eqb_refl. constructor. constructor.
+        - pose proof (Hlk k) as A. rewrite !lookup_app. cbn [lookup]. rewrite Ek.
+          destruct (lookup k (key_kv K t i)); destruct (lookup k lb); exact A. }
+      apply existsb_exists in Hcov as [x [Hxin Hxt]]. apply String.eqb_eq in Hxt.
       destruct (Hx x Hxin) as [body [Hxe Hfb]]. rewrite Hxt in Hxe, Hfb. subst x.
       eapply forallb_forall in Hok' as Hxok; [|exact Hxin]. cbn [node_ok] in Hxok. rewrite Hu in Hxok.
       apply andb_prop in Hxok as [Hxok Hbok]. apply andb_prop in Hxok as [Hxok Hbnd].
@@ -717,8 +760,9 @@ Section Norm.
           assert (Hsub : subs_ok g t s').
           { destruct t as [|o|u]; [discriminate| |].
             - apply andb_prop in Hno3 as [Hno3 H3]. apply andb_prop in Hno3 as [_ H2]. split; [exact H2 | split; [exact H3 | exact I]].
-            - apply andb_prop in Hno3 as [Hno3 H4]. apply andb_prop in Hno3 as [Hno3 H3]. apply andb_prop in Hno3 as [_ H2].
-              split; [exact H2 | split; [exact H3|]]. destruct (union_members g u) as [ms|]; [|discriminate]. exists ms. auto. }
+            - apply andb_prop in Hno3 as [Hno3 H4]. apply andb_prop in Hno3 as [Hno3 H5]. apply andb_prop in Hno3 as [Hno3 H3]. apply andb_prop in Hno3 as [_ H2].
+              split; [exact H2 | split; [exact H3|]]. destruct (union_members g u) as [ms|]; [|discriminate]. exists ms. split; [reflexivity|].
+              intros ->. discriminate. }
           assert (Hqs : Forall qwfP (subs_of al flat0)) by (apply subs_of_qwf; apply Forall_forall; exact Hfw).
           destruct (HV t (subs_of al flat0) s' Hfs Hqs Hsub _ Hvok) as [x [Hx Hj]].
           destruct (dispatch f ty id al nm args ak dirs true subs0 true s' _ x Etn Hfed Hx Hj) as [y [Hy1 Hy2]].
